@@ -94,7 +94,27 @@ impl World {
                     "vault_minus_holdings": resid.to_string(),
                     "funding_collected_minus_claimed": f.to_string(),
                 }));
-                cx.violation("C08:ledger:holdings_change_differs_from_reported_flows", || w);
+                // Known class: a fee cost that cannot be paid from output/collateral is converted into
+                // secondary-output tokens with floor rounding; when that rounds to zero the cost counts
+                // as paid and the fee amounts are still credited to the pool / claimable-fee pool.
+                // Tight bound for the class: the unbacked credit is at most the reported fee cost and is
+                // worth less than one base unit of the secondary (pnl) token.
+                let excess = -(&resid - f); // holdings above what the flows explain
+                let mut sig = "C08:ledger:holdings_change_differs_from_reported_flows";
+                if let Some((coll_long, tokens_differ, fee_cost)) = &self.last_dec {
+                    let cp = self.collateral_price(*coll_long).min;
+                    let sp = self.collateral_price(!*coll_long).min;
+                    if tok(*coll_long) == tk
+                        && *tokens_differ
+                        && excess.is_positive()
+                        && excess <= *fee_cost
+                        && &excess * bi(cp) < bi(sp)
+                    {
+                        sig = "C08:ledger:fee_credited_although_cost_rounded_to_zero_in_secondary_token";
+                        cx.count("c08_fee_credit_without_payment");
+                    }
+                }
+                cx.violation(sig, || w);
                 // resynchronise so that one leak is reported once per history, not per step
                 self.ledger.vault[tk] = &h + f;
                 continue;
@@ -524,6 +544,7 @@ impl World {
 
     pub fn step(&mut self, rng: &mut Rng, cx: &mut Cx) {
         self.step += 1;
+        self.last_dec = None;
         let w_probe: u32 = match cx.prop {
             Prop::C09 => 8,
             Prop::C10 => 14,
